@@ -1,0 +1,43 @@
+//! Verification seams, compiled only with the `verif-hooks` cargo feature.
+//!
+//! The only source of nondeterminism in this crate is the iteration order of the
+//! `HashMap` holding object properties.  With the feature enabled a simulator can
+//! decide the order in which properties are written; with it disabled (the default)
+//! none of this code exists.
+
+use std::cell::RefCell;
+use std::collections::HashMap;
+use Amf0Value;
+
+thread_local! {
+    static ORDER_HOOK: RefCell<Option<Box<dyn FnMut(usize) -> usize>>> = RefCell::new(None);
+}
+
+/// Installs (or removes) the callback that decides property order.  It is called with
+/// `n >= 2` and must return an index below `n`; always returning 0 gives name order.
+pub fn set_order_hook(hook: Option<Box<dyn FnMut(usize) -> usize>>) {
+    ORDER_HOOK.with(|cell| *cell.borrow_mut() = hook);
+}
+
+/// The properties sorted by name and then permuted (Fisher-Yates) by the installed hook.
+pub fn ordered<'a>(properties: &'a HashMap<String, Amf0Value>) -> Vec<(&'a String, &'a Amf0Value)> {
+    let mut items: Vec<(&'a String, &'a Amf0Value)> = properties.iter().collect();
+    items.sort_by(|a, b| a.0.cmp(b.0));
+
+    ORDER_HOOK.with(|cell| {
+        if let Some(ref mut hook) = *cell.borrow_mut() {
+            let count = items.len();
+            for index in 0..count {
+                let remaining = count - index;
+                if remaining < 2 {
+                    break;
+                }
+
+                let pick = hook(remaining) % remaining;
+                items.swap(index, index + pick);
+            }
+        }
+    });
+
+    items
+}
